@@ -421,6 +421,11 @@ func runSimple(seed uint64, cas int, tier string) *SimpleRes {
 			}
 		}
 	}
+	// ---- 1b. what a reply shows must survive a crash at that instant -----
+	for v := 0; v < 8 && len(res.Viol) == 0; v++ {
+		childLog("simple observation crash %d", v)
+		simpleObsCrash(v, res, viol)
+	}
 	// ---- 2. concurrent histories, linearizable per inode ---------------
 	nh := 80
 	if tier == "thorough" {
@@ -431,6 +436,89 @@ func runSimple(seed uint64, cas int, tier string) *SimpleRes {
 		runSimpleHistory(rng.Sub(uint64(h)), res, viol)
 	}
 	return res
+}
+
+// simpleObsCrash: while a modifying request is in flight (all disk writes are
+// held back, so it cannot become durable) a second client reads the same file.
+// If the read is answered, its reply is an observation: the state recovered
+// from the disk as it is at that instant must show at least what the reply
+// showed (a request's effect is either applied and durable, or invisible).
+func simpleObsCrash(v int, res *SimpleRes, viol func(string, string, ...interface{})) {
+	const size = 2000
+	d := NewCDisk(size)
+	srv := simple.MakeNfs(d)
+	fh := simpleFh(uint64(2+v%3), 16)
+	first := bytes.Repeat([]byte{0x11}, 10)
+	if r := doSimple(srv, &sOp{K: OpWrite, FH: fh, Off: 0, Count: 10, Data: first, Stable: 2}); r.Stat != stOK {
+		viol("simple", "setup WRITE fails: %d", r.Stat)
+		return
+	}
+	base := d.StartRecording()
+	d.HoldHome(0) // every write waits (released automatically after a moment)
+	var mod *sOp
+	if v%2 == 0 {
+		mod = &sOp{K: OpWrite, FH: fh, Off: 10, Count: 90, Data: bytes.Repeat([]byte{0x22}, 90), Stable: 2}
+	} else {
+		mod = &sOp{K: OpSetattr, FH: fh, SetSize: true, Size: 300}
+	}
+	modDone := make(chan struct{})
+	go func() { defer close(modDone); doSimple(srv, mod) }()
+	time.Sleep(5 * time.Millisecond) // let it get into its commit
+	var obs *Res
+	retPos := -1
+	obsDone := make(chan struct{})
+	go func() {
+		defer close(obsDone)
+		if v%4 < 2 {
+			obs = doSimple(srv, &sOp{K: OpGetattr, FH: fh})
+		} else {
+			obs = doSimple(srv, &sOp{K: OpRead, FH: fh, Off: 0, Count: 4096})
+		}
+		retPos = d.Mark(EvRet, 0)
+	}()
+	<-obsDone
+	<-modDone
+	d.ReleaseHome()
+	trace := d.StopRecording()
+	res.Ops += 3
+	if obs.Stat != stOK {
+		viol("simple", "read of file during a modification fails: %d", obs.Stat)
+		return
+	}
+	seen := obs.Size
+	if v%4 >= 2 {
+		seen = uint64(len(obs.Data))
+	}
+	it := NewCutIter(size, base, trace)
+	for it.pos <= retPos {
+		if _, ok := it.Step(); !ok {
+			break
+		}
+	}
+	got, msg := recoverSimpleFile(it.PrefixImage(), fh)
+	res.Images++
+	if msg != "" {
+		viol("crash", "observation crash: %s", msg)
+		return
+	}
+	if got != seen && seen != 10 {
+		viol("crash", "a %s answered while a %s of the same file was in flight showed size %d; the disk as it was at the instant of that reply recovers to size %d (the modification was visible before it was durable: after a crash the acknowledged observation is gone)", map[bool]string{true: "GETATTR", false: "READ"}[v%4 < 2], mod.K, seen, got)
+	}
+	res.Keys[fmt.Sprintf("observation-crash/%d/saw-new=%v", v%4, seen != 10)] = true
+}
+
+func recoverSimpleFile(img map[uint64][]byte, fh []byte) (size uint64, errmsg string) {
+	defer func() {
+		if e := recover(); e != nil {
+			errmsg = fmt.Sprintf("panic while recovering: %v", e)
+		}
+	}()
+	srv := simple.Recover(NewCDiskFrom(2000, img))
+	ga := doSimple(srv, &sOp{K: OpGetattr, FH: fh})
+	if ga.Stat != stOK {
+		return 0, fmt.Sprintf("GETATTR after recovery: status %d", ga.Stat)
+	}
+	return ga.Size, ""
 }
 
 func simpleArgClass(o *sOp) string {
